@@ -111,9 +111,23 @@ def model_check(ctx, rd):
 GEN_QUICK = [(ALL_KINDS, 120, 5), (["mx", "dv"], 60, 5), (["tn"], 50, 5), (["sv"], 30, 5), (["dv"], 10, 5), (["uv"], 10, 5), (["iv"], 10, 5), (["dl"], 10, 5)]
 
 
+def _family_of(op):
+    """container family (Kinds value) whose generator emits the library call `op`"""
+    for pre, fam in (("Tensor", "tn"), ("NewTensor", "tn"), ("DelTensor", "tn"), ("setTensor", "tn"), ("getTensor", "tn"),
+                     ("Matrix", "mx"), ("NewMatrix", "mx"), ("DelMatrix", "mx"), ("ResizeMatrix", "mx"), ("initMatrix", "mx"), ("setMatrix", "mx"), ("getMatrix", "mx"),
+                     ("StrVector", "sv"), ("NewStrVector", "sv"), ("DelStrVector", "sv"), ("setStr", "sv"), ("getStr", "sv"),
+                     ("DVectorList", "dl"), ("NewDVectorList", "dl"), ("DelDVectorList", "dl"),
+                     ("UIVector", "uv"), ("NewUIVector", "uv"), ("DelUIVector", "uv"), ("setUIVector", "uv"), ("getUIVector", "uv"), ("SortUIVector", "uv"),
+                     ("IVector", "iv"), ("NewIVector", "iv"), ("DelIVector", "iv"), ("setIVector", "iv"), ("getIVector", "iv"),
+                     ("DVector", "dv"), ("NewDVector", "dv"), ("DelDVector", "dv"), ("setDVector", "dv"), ("getDVector", "dv")):
+        if op.startswith(pre) or pre in op:
+            return fam
+    return None
+
+
 def _gen_plan(ctx):
     if ctx.quick:
-        return GEN_QUICK
+        return list(GEN_QUICK)
     plan = []
     for kinds, n, chunk in [(ALL_KINDS, 8000, 1000), (["mx", "dv"], 4000, 1000), (["tn"], 3000, 1000), (["sv"], 2000, 1000),
                             (["dv"], 800, 800), (["uv"], 800, 800), (["iv"], 800, 800), (["dl"], 600, 600)]:
@@ -518,8 +532,22 @@ def run(ctx):
                                 plan=[dict(kinds=k, histories=n, MaxDim=d) for k, n, d in plan])
         ctx.cov["transitions"] += total.calls_generated
         missing = [o_ for o_ in ALPHABET if total.gen_ops[o_] == 0]
+        topups = 0
+        while missing and topups < 8:
+            # alphabet coverage must not depend on seed luck: draw further histories (fresh generator seed, family of the missing call)
+            # until every operation of the alphabet has been executed at least once; all of them are replayed and judged like the others
+            topups += 1
+            fam = _family_of(missing[0])
+            j = len(plan)
+            plan.append(([fam] if fam else ALL_KINDS, 40, 5))
+            offsets.append(o)
+            o += 40
+            total.add(chunk(j))
+            missing = [o_ for o_ in ALPHABET if total.gen_ops[o_] == 0]
+        if topups:
+            ctx.steps["gen_topups"] = topups
         if missing:
-            raise InfraError("generated histories never call: %s" % missing)
+            raise InfraError("generated histories never call: %s (after %d top-up rounds)" % (missing, topups))
         ctx.note("generated %d histories / %d calls over %d operations of the alphabet" % (total.histories, total.calls_generated, len(ALPHABET)))
         nfail = report(ctx, total)
         okh, opmix, relmix, aborts, rets = total.ok, total.opmix, total.relmix, total.aborts, total.rets
